@@ -8,6 +8,7 @@
    All theorems quantify over EVERY plan and EVERY outcome stream of any length. *)
 From SV Require Import Base.Prelude Model.Retry Model.Fiber.
 From SV Require Import Proofs.Retry_proofs Proofs.Fiber_proofs Proofs.C06_proofs.
+From SV Require Import Model.E2EAttempts Proofs.E2EAttempts_proofs.
 Open Scope Z_scope.
 
 (* The error sets of the property text: "a failure that proves the previous attempt was not
@@ -292,6 +293,135 @@ Example C06_ex_ignore :
      RIgnoredWriteError 1%N).
 Proof. vm_compute. reflexivity. Qed.
 
+(* ---- end to end: a real Session against a mock cluster (Model/E2EAttempts.v) ------------------
+   [frs]: the QUERY / EXECUTE / BATCH frames of ONE logical request (one page) as the mock
+   received them, in arrival order, each with node, consistency, arrival instant, the answer the
+   mock gave and the instant that answer was logged; [o]: what the caller of the session API got;
+   [nodes]: the nodes of the cluster; [down]: nodes whose connection the mock has cut.
+   [check_single] / [e2e_check] are the checkers the driver runs (on a certificate it proposes). *)
+
+(* Acceptance exhibits a run of the execution-loop model: a plan of distinct nodes of the cluster
+   that contains every node whose connection was not cut, and an outcome stream, such that the
+   frames are exactly the attempts of [fiber] (same targets, consistencies and outcomes, in
+   order), each frame answered before the next one arrives; targets skipped without an attempt
+   are nodes whose connection was cut; the caller got the model's result. *)
+Theorem C06_e2e_run : forall p idem cl0 nodes down c frs tret o co,
+  check_single p idem cl0 nodes down c frs tret o co = true ->
+  exists tr r,
+    fiber p idem cl0 (c_plan c) (c_outs c) = (tr, r)
+    /\ Forall2 ev_obs (attempts tr) frs
+    /\ res_match r o = true /\ r <> RPending
+    /\ seq_ok frs = true
+    /\ NoDup (c_plan c) /\ incl (c_plan c) nodes
+    /\ (forall n, In n nodes -> In n (c_plan c) \/ In n down)
+    /\ (forall t, In t (conn_fail_targets tr) -> In t down)
+    /\ coord_match co r = true.
+Proof. exact single_sound. Qed.
+
+(* THE PROPERTY on the wire.  Whenever a frame of an accepted request is followed by another
+   frame, the first one had been answered with an error before the second one arrived; if the
+   request is not idempotent that error proves the attempt was not applied (Unavailable /
+   IsBootstrapping / ReadTimeout). *)
+Theorem C06_e2e_resend : forall p idem cl0 nodes down c frs tret o co,
+  check_single p idem cl0 nodes down c frs tret o co = true ->
+  forall pre f g post, frs = pre ++ f :: g :: post ->
+  (exists e, f_ans f = AnsErr e /\ (idem = false -> safe_errorb e = true))
+  /\ (f_arr f <= f_done f)%N /\ (f_done f <= f_arr g)%N.
+Proof. exact single_resend. Qed.
+
+(* ... after a broken connection, an overloaded / server / truncate error or a write timeout a
+   request that is not idempotent is not sent again, and the caller gets exactly that error *)
+Theorem C06_e2e_unsafe_final : forall p cl0 nodes down c frs tret o co,
+  check_single p false cl0 nodes down c frs tret o co = true ->
+  forall pre f post e, frs = pre ++ f :: post -> f_ans f = AnsErr e -> named_unsafe_errorb e = true ->
+  post = [] /\ o = OFailed (LAttempt e).
+Proof. exact single_unsafe_final. Qed.
+
+(* the number of frames of one logical request: at most the number of nodes plus 2 / 1 / 0 *)
+Theorem C06_e2e_bound : forall p idem cl0 nodes down c frs tret o co,
+  check_single p idem cl0 nodes down c frs tret o co = true ->
+  (List.length frs <= List.length nodes + same_target_budget p)%nat.
+Proof. exact single_bound. Qed.
+
+(* the first frame carries the request's consistency; Default and Fallthrough never change it *)
+Theorem C06_e2e_consistency : forall p idem cl0 nodes down c frs tret o co,
+  check_single p idem cl0 nodes down c frs tret o co = true ->
+  (forall f rest, frs = f :: rest -> f_cl f = cl0)
+  /\ (p <> PDowngrading -> Forall (fun f => f_cl f = cl0) frs).
+Proof. exact single_cl. Qed.
+
+Theorem C06_e2e_serial_default : forall idem cl0 nodes down c frs tret o co,
+  check_single PDefault idem cl0 nodes down c frs tret o co = true -> is_serial cl0 = true ->
+  (List.length frs <= 1)%nat.
+Proof. exact single_serial_default. Qed.
+
+(* The gate.  An observation of a request that is not idempotent (or of one without a speculative
+   policy) is accepted only as ONE fiber run to its end -- so everything above applies to every
+   frame of it -- and then at no instant two of its frames are in flight. *)
+Theorem C06_e2e_gate : forall p idem spec cl0 nodes down cs assign frs tret o co,
+  e2e_check p idem spec cl0 nodes down cs assign frs tret o co = true ->
+  (idem = false \/ spec = None) ->
+  exists c, cs = [c] /\ check_single p idem cl0 nodes down c frs tret o co = true
+            /\ forall t, (List.length (in_flight t frs) <= 1)%nat.
+Proof. exact e2e_gate. Qed.
+
+(* Idempotent request with a speculative policy: the frames split into at most 1 + max fibers,
+   each of them a run of the model (to its end, or up to the moment it was cancelled: pending
+   model run, or last frame still unanswered) on its own part of the plan; the parts are pairwise
+   disjoint sets of distinct nodes of the cluster. *)
+Theorem C06_e2e_fibers : forall p spec cl0 nodes down cs assign frs tret o co max,
+  e2e_check p true spec cl0 nodes down cs assign frs tret o co = true -> spec = Some max ->
+  (1 <= List.length cs <= 1 + max)%nat
+  /\ NoDup (concat (map c_plan cs)) /\ incl (concat (map c_plan cs)) nodes
+  /\ forall i c, nth_error cs i = Some c ->
+       exists tr r, fiber p true cl0 (c_plan c) (c_outs c) = (tr, r)
+                    /\ match_frames (c_free c) (attempts tr) (sub_frames i assign frs) = true
+                    /\ seq_ok (sub_frames i assign frs) = true
+                    /\ (forall t, In t (conn_fail_targets tr) -> In t down).
+Proof. exact e2e_fibers. Qed.
+
+(* what [match_frames] says: attempt by attempt the frame's node, consistency and answer; for a
+   cancelled fiber the answer of the last frame is left open *)
+Theorem C06_e2e_match : forall evs frs,
+  (match_frames false evs frs = true -> Forall2 ev_obs evs frs) /\
+  (match_frames true evs frs = true ->
+     Forall2 ev_obs_free evs frs /\ Forall2 ev_obs (removelast evs) (removelast frs)).
+Proof. exact match_frames_spec. Qed.
+
+(* the predicate the driver evaluates on observations for which no certificate is accepted holds
+   of every accepted one (gate closed) *)
+Theorem C06_e2e_prop_frames : forall p idem spec cl0 nodes down c frs tret o co,
+  check_single p idem cl0 nodes down c frs tret o co = true ->
+  gate_open idem spec = None ->
+  prop_frames p idem spec (List.length nodes) frs = true.
+Proof. exact single_prop_frames. Qed.
+
+(* non-vacuity.  Not idempotent, Default, 3 nodes: Unavailable on node 2 (answered at 20), then
+   success on node 0 -- accepted; the same frames with the second one arriving BEFORE the first
+   was answered (a second node contacted without any failure: what a speculative execution of a
+   request that is not idempotent looks like) -- no certificate can be accepted: the property
+   predicate is false, and so is the checker on the natural certificate. *)
+Definition ex_f1 (done_ : N) := mkFrame 2 CQuorum 10 (AnsErr ex_unavail) done_.
+Definition ex_f2 := mkFrame 0 CQuorum 40 AnsOk 45.
+Definition ex_cert := mkCert [2; 0; 1]%N [OError ex_unavail; OSuccess] false.
+Example C06_ex_e2e :
+  check_single PDefault false CQuorum [0; 1; 2]%N [] ex_cert [ex_f1 20; ex_f2] 50 OCompleted (Some 0%N) = true /\
+  e2e_check PDefault false (Some 2%nat) CQuorum [0; 1; 2]%N [] [ex_cert] [0; 0]%nat [ex_f1 20; ex_f2] 50 OCompleted (Some 0%N) = true /\
+  check_single PDefault false CQuorum [0; 1; 2]%N [] ex_cert [ex_f1 300; ex_f2] 50 OCompleted None = false /\
+  prop_frames PDefault false (Some 2%nat) 3 [ex_f1 300; ex_f2] = false /\
+  prop_frames PDefault false (Some 2%nat) 3 [mkFrame 2 CQuorum 10 AnsOk 300; ex_f2] = false /\
+  (* idempotent with a policy: two fibers, the first one cancelled while its frame was in flight *)
+  e2e_check PDefault true (Some 2%nat) CQuorum [0; 1; 2]%N []
+            [mkCert [2]%N [OSuccess] true; mkCert [0]%N [OSuccess] false] [0; 1]%nat
+            [mkFrame 2 CQuorum 10 AnsNone 0; ex_f2] 50 OCompleted (Some 0%N) = true /\
+  (* the result names the node whose answer was returned *)
+  check_single PDefault false CQuorum [0; 1; 2]%N [] ex_cert [ex_f1 20; ex_f2] 50 OCompleted (Some 2%N) = false /\
+  (* ... but not more fibers than 1 + max *)
+  e2e_check PDefault true (Some 0%nat) CQuorum [0; 1; 2]%N []
+            [mkCert [2]%N [OSuccess] true; mkCert [0]%N [OSuccess] false] [0; 1]%nat
+            [mkFrame 2 CQuorum 10 AnsNone 0; ex_f2] 50 OCompleted None = false.
+Proof. vm_compute. repeat split; reflexivity. Qed.
+
 Print Assumptions C06_safe_set.
 Print Assumptions C06_named_unsafe_set.
 Print Assumptions C06_safe_resend.
@@ -320,3 +450,13 @@ Print Assumptions C06_ignore_only_idempotent.
 Print Assumptions C06_decide_prop_ok.
 Print Assumptions C06_history_prop_ok.
 Print Assumptions C06_trace_prop_ok.
+Print Assumptions C06_e2e_run.
+Print Assumptions C06_e2e_resend.
+Print Assumptions C06_e2e_unsafe_final.
+Print Assumptions C06_e2e_bound.
+Print Assumptions C06_e2e_consistency.
+Print Assumptions C06_e2e_serial_default.
+Print Assumptions C06_e2e_gate.
+Print Assumptions C06_e2e_fibers.
+Print Assumptions C06_e2e_match.
+Print Assumptions C06_e2e_prop_frames.
